@@ -134,19 +134,33 @@ def case_subst(rec, wc, acc_hex, bounce, test, url):
     alpha = URL if url else STD
     args = {'wc': wc, 'acc_hex': acc_hex, 'bounce': bounce, 'test': test, 'url': url}
     n = 0
-    for pos in range(48):
-        for ch in alpha:
-            if ch == s[pos]:
-                continue
-            t = s[:pos] + ch + s[pos + 1:]
-            n += 1
+    # the checksum is enforced on every parse: all substitutions are tried BEFORE the intact string was ever parsed in this
+    # case, then the intact string is parsed (it must be accepted), then all substitutions again (a parser that remembers
+    # what it has verified must still reject the typo)
+    for phase in ('before', 'after'):
+        for pos in range(48):
+            for ch in alpha:
+                if ch == s[pos]:
+                    continue
+                t = s[:pos] + ch + s[pos + 1:]
+                n += 1
+                try:
+                    b = Address(t)
+                except Exception:
+                    continue
+                rec.violation('subst:accepted' if phase == 'before' else 'subst:accepted-after-intact',
+                              f'{s} with character {pos} replaced by {ch!r} ({t}) was accepted as ({b.wc}, {b.hash_part.hex()[:10]}..)'
+                              + (' after the intact string had been parsed' if phase == 'after' else ''), 'case_subst', args)
+                rec.outcome('ACCEPTED-TYPO')
+                return
+        if phase == 'before':
             try:
-                b = Address(t)
-            except Exception:
-                continue
-            rec.violation('subst:accepted', f'{s} with character {pos} replaced by {ch!r} ({t}) was accepted as ({b.wc}, {b.hash_part.hex()[:10]}..)', 'case_subst', args)
-            rec.outcome('ACCEPTED-TYPO')
-            return
+                a = Address(s)
+                if a.wc != wc or a.hash_part != acc:
+                    raise ValueError('parsed to another address')
+            except Exception as e:
+                rec.violation('subst:intact-rejected', f'{s}: the intact friendly form is not accepted: {type(e).__name__}: {e}', 'case_subst', args)
+                return
     rec.case('subst', n)
     rec.trans(n)
     rec.trace(n)
